@@ -1,17 +1,21 @@
 """C02 — references and built-ins denote the reference semantics."""
 from .. import common as C
 from .. import evalgen as G
+from . import c02_parse_cases as P
 
 ID = "C02"
 impl_prop = "EV"
-SRC_FACTS = []
+SRC_FACTS = list(P.SRC_FACTS)
 COQ_SAMPLE = 40
 RULE = ("random programs: optional literal base import, own literal keys over {a,b,c}, derived keys d0..dn built from "
         "references (names, quoted keys, indices, paths crossing into the inherited base, imports.*, context.*), "
         "interpolations with $$, fn::join/toJSON/fromJSON/toBase64/fromBase64/toString/secret nested to depth 3, ~10% "
         "invalid references; every program is rendered twice with shuffled key order.  Claims (path/same/tostr) are "
         "attached by construction and evaluated on the implementation's result.  non-trivial = evaluation without "
-        "diagnostics carrying at least one claim")
+        "diagnostics carrying at least one claim.  Parser cases (props/c02_parse_cases.py): canonical ASTs (rich worlds, "
+        "C02 programs, literals, every constructor over hostile strings) rendered to YAML and parsed back, and malformed "
+        "shapes (every builtin and near-miss key x every argument shape, the top-level record, nested and random syntax "
+        "trees): the implementation's decoded syntax tree goes through Model/Parse.v and is compared with its AST")
 ASSUMPTIONS = ["strings in toString/toJSON/fromJSON contexts are 7-bit ASCII (strconv.Quote / encoding/json on non-ASCII "
                "text is outside the model and skipped)", "number literals in canonical decimal form"]
 TRUSTED = ["claims are produced by the generator from the program's structure (trusted specification glue)"]
@@ -272,6 +276,8 @@ def gen(rng, tier):
     r = rng.fork("interp")
     for _ in range(20000 if tier == "thorough" else 1500):
         cases.append(gen_interp(r) if r.chance(1, 2) else gen_interp_rt(r))
+    # the parser: YAML text -> syntax tree -> AST (Model/Parse.v vs ast.ParseEnvironment / eval.LoadYAMLBytes)
+    cases += P.gen_parse_cases(rng.fork("parse"), tier)
     return cases
 
 
@@ -294,6 +300,8 @@ def w_parts(parts):
 
 
 def prepare(c):
+    if c.get("kind") == P.KIND:
+        return P.prepare(c)
     if c.get("kind") == "interp":
         return {"_h": "INTERP", "text": c["text"]}
     r = G.request(c)
@@ -302,6 +310,8 @@ def prepare(c):
 
 
 def line(c, o):
+    if c.get("kind") == P.KIND:
+        return P.line(c, o)
     if c.get("kind") == "interp":
         if "panic" in o or "crash" in o or "parts" not in o:
             return "(interp x%s () 99 () none)" % c["text"]
@@ -319,6 +329,8 @@ def line(c, o):
 
 
 def describe(c):
+    if c.get("kind") == P.KIND:
+        return P.describe(c)
     if c.get("kind") == "interp":
         return {"interpolation": bytes.fromhex(c["text"]).decode("latin-1"), "roundtrip_of": c["want"]}
     return {"yaml": G.render_env(c["def"]), "base": {n: G.render_env(e["def"]) for n, e in c["envs"].items()},
@@ -326,6 +338,9 @@ def describe(c):
 
 
 def shrink(c):
+    if c.get("kind") == P.KIND:
+        yield from P.shrink(c)
+        return
     if c.get("kind") == "interp":
         b = bytes.fromhex(c["text"])
         if c["want"] is None:
@@ -348,8 +363,9 @@ def distribution(cases, r):
     d = {"with_errors": 0, "without_errors": 0, "claims": 0, "loaderr": 0, "crash_or_panic": 0}
     d["interp_cases"] = sum(1 for c in cases if c.get("kind") == "interp")
     d["interp_roundtrip_cases"] = sum(1 for c in cases if c.get("kind") == "interp" and c["want"] is not None)
+    d["parser"] = P.distribution(cases, r["obs"])
     for c, o in zip(cases, r["obs"]):
-        if c.get("kind") == "interp":
+        if c.get("kind") in ("interp", P.KIND):
             continue
         if o.get("loaderr"):
             d["loaderr"] += 1
